@@ -298,15 +298,17 @@ def ref_names(info):
     uid = info.get("openTypeNameUniqueID", "%s;%s;%s" % (version.replace("Version ", ""), vendor, ps))
     names = {1: smfn, 2: smsn.title(), 3: uid, 4: "%s %s" % (pfam, psub), 5: version,
              6: normalizeStringForPostscript(ps) if ps else ps, 16: pfam, 17: psub}
+    resolved = dict(names)
     if names[1] == names[16] and names[2] == names[17]:
         del names[16], names[17]
-    return names, ps, smsn
+    return names, ps, smsn, resolved
 
 
 def names_and_totality(ctx):
     import ufo2ft
     from fontTools.ttLib import TTFont
     rng = ctx.subrng("names")
+    name_cases = []
     for i in range(ctx.budget(40, 300)):
         info = {}
         if rng.random() < 0.85:
@@ -351,7 +353,8 @@ def names_and_totality(ctx):
             except Exception as e:
                 ctx.spec_failure(case, "compile/save of spec-valid info raised %s: %s\n%s" % (type(e).__name__, e, traceback.format_exc()[-1000:]))
                 continue
-            want, ps, smsn = ref_names(info)
+            want, ps, smsn, resolved = ref_names(info)
+            name_cases.append((resolved, {nid: tt['name'].getDebugName(nid) for nid in (1, 2, 3, 4, 5, 6, 16, 17)}, case))
             nt = tt["name"]
             for nid in (1, 2, 3, 4, 5, 6, 16, 17):
                 got = nt.getDebugName(nid)
@@ -394,6 +397,22 @@ def names_and_totality(ctx):
                         ctx.spec_failure(case, "CFF %s %r is not Latin-1 encodable" % (fld, v))
                 if tt["CFF "].cff.fontNames[0] != (normalize6(ps)):
                     ctx.spec_failure(case, "CFF font name %r, expected %r" % (tt["CFF "].cff.fontNames[0], ps))
+    name_records_correspondence(ctx, name_cases)
+
+
+def name_records_correspondence(ctx, name_cases):
+    """Info/NameTable.v (which records are written, given the resolved values) against the compiled name table"""
+    cases, meta = [], []
+    for resolved, got, case in name_cases:
+        vals = G.lst([G.tup(G.nat(k), G.s(v or "")) for k, v in sorted(resolved.items())], "(nat * str)")
+        obs = G.lst([G.tup(G.nat(k), G.s(v)) for k, v in sorted(got.items()) if v], "(nat * str)")
+        cases.append(G.tup(vals, obs)); meta.append(dict(case, resolved_names=resolved, name_table=got))
+    vals = ctx.coq_eval("From U2F Require Import Base.Prelude Info.NameTable.",
+                        "fun c : (list (nat * str) * list (nat * str)) => if recs_eqb (name_records (fst c)) (snd c) then 3 else 2",
+                        cases, chunk=100, tag="NameRecs")
+    for v, case in zip(vals, meta):
+        if v is not None and v != 3:
+            ctx.corr_mismatch(case, "Gallina name_records differs from the compiled name table (IDs 1-6, 16, 17)")
 
 
 def normalize6(ps):
